@@ -80,6 +80,9 @@ type Decision struct {
 	Filter   bool   // filter by artifactType without announcing it
 	FHdr     string // OCI-Filters-Applied header ("" = absent)
 	FAnn     string // filtersApplied annotation ("" = absent)
+	NullBody int    // an EMPTY page is written as 1: `null`, 2: `{"tags":null}` (resp. repositories / manifests)
+	LeadWS   int    // pairs of white space bytes before the document (they count as part of it)
+	TrailDoc bool   // a second JSON document follows the first (after Pad)
 	DocLen   int    // if larger than the natural size: pad the JSON document (inside) to this size
 	Pad      int    // bytes of white space after the document
 
@@ -424,9 +427,22 @@ func (r *Registry) RoundTrip(req *http.Request) (*http.Response, error) {
 		}
 	}
 	x.JSONOK = true
-	if d.DocLen > len(body) {
+	if len(x.Page) == 0 && d.NullBody != 0 {
+		// how encoders of nil slices write an empty page
+		key := map[byte]string{'T': "tags", 'K': "repositories", 'R': "manifests"}[x.Kind]
+		switch d.NullBody {
+		case 1:
+			body = []byte("null")
+		default:
+			body = []byte(`{"` + key + `":null}`)
+		}
+	}
+	if d.DocLen > len(body) && body[len(body)-1] == '}' {
 		// white space before the closing brace keeps the document self-delimited
 		body = append(append(body[:len(body)-1:len(body)-1], bytes.Repeat([]byte{' '}, d.DocLen-len(body))...), '}')
+	}
+	if d.LeadWS > 0 {
+		body = append(bytes.Repeat([]byte{' ', '\n'}, d.LeadWS), body...)
 	}
 	x.DocLen = len(body)
 	if d.RawBody != nil {
@@ -434,6 +450,10 @@ func (r *Registry) RoundTrip(req *http.Request) (*http.Response, error) {
 	}
 	if d.Pad > 0 {
 		body = append(body, bytes.Repeat([]byte{'\n'}, d.Pad)...)
+	}
+	if d.TrailDoc && d.RawBody == nil {
+		// a second document after the first: a stream decoder must not look at it
+		body = append(body, []byte(`{"tags":["zzz"],"repositories":["zzz"],"manifests":[{"mediaType":"x","digest":"sha256:00","size":1}]}`)...)
 	}
 	x.TotalLen = len(body)
 	x.Status = http.StatusOK
